@@ -337,6 +337,53 @@ def r4_identifiers(F, res):
                           F.fn(fn).loc() if F.fn(fn) else None)
 
 
+def r4b_check_identifier(F, res, rid="C16-R4"):
+    """check_identifier itself: the text handed to the Rust identifier parser is the whole name, and a parse error is
+    answered with Err"""
+    res.rule(rid, "", 0)
+    f = F.fn(GB + "check_identifier")
+    if f is None or not f.has_body():
+        res.anchor_lost(rid, "check_identifier not found")
+        return
+    parsed = None
+    err_on_fail = ok_on_fail = False
+    for p in Sim(f, F).run():
+        for e in p.events:
+            if e[0] == "call" and ("syn::parse_str" in e[1] or "parse_str" in e[1].rsplit("::", 2)[-2:][0] or e[1].endswith("parse_str")) and e[2]:
+                parsed = e[2][0]
+        r = [e[1] for e in p.events if e[0] == "return"]
+        failed = any(tm[0] == "discr" and has_call(tm[1], "parse_str") and v == frozenset(["Err"]) for tm, v in p.cond) or \
+            any(is_call_sub(tm, "is_err") and v == 1 for tm, v in p.cond) or any(is_call_sub(tm, "is_ok") and v == 0 for tm, v in p.cond)
+        if failed and r and isinstance(r[0], tuple):
+            # `err!(..)?`: the residual of the `?` is the Err answer (its Continue edge is not a real path)
+            if (r[0][0] == "agg" and r[0][1].endswith("Err")) or (r[0][0] == "call" and "FromResidual" in r[0][1]):
+                err_on_fail = True
+            elif r[0][0] == "agg" and r[0][1].endswith("Ok"):
+                ok_on_fail = True
+    if parsed is None:
+        res.anchor_lost(rid, "check_identifier: call of syn::parse_str not recognised", f.loc())
+        return
+    whole = parsed == ("param", "name") or (isinstance(parsed, tuple) and parsed[0] == "field" and parsed[1] == ("param", "name"))
+    extra = sorted({mir.short(c[1]) for c in mir.calls_in(parsed)})
+    if whole and not extra:
+        res.ok(rid, "check-identifier/whole-name", f.loc(), "syn::parse_str::<Ident>(name)")
+    else:
+        res.violation(rid, "check-identifier/whole-name", "check_identifier validates %s instead of the whole name (%s): a name with an "
+                      "unchecked part reaches format_ident! and panics the generator" % (fmt(parsed)[:100], ", ".join(extra) or "derived text"), f.loc())
+    if err_on_fail:
+        res.ok(rid, "check-identifier/answer", f.loc(), "parse error => Err")
+    elif ok_on_fail:
+        res.violation(rid, "check-identifier/answer", "check_identifier returns Ok for a name that is not a Rust identifier", f.loc())
+
+
+def is_call_sub(t, sub):
+    return isinstance(t, tuple) and t[0] == "call" and sub in t[1]
+
+
+def has_call(t, sub):
+    return mir.has_call(t, sub)
+
+
 def r5_recognizer_pairing(F, res):
     rid = res.rule("C16-R5", "the recogniser-presence check covers every terminal (unfiltered) under the default lexer - it "
                    "backs the panic!(\"Undefined recognizer\") in lexer_definition", floor=1)
@@ -494,6 +541,7 @@ def run(ctx, res):
     r2_diagnostics(F, res)
     r3_symbol_tables(F, res)
     r4_identifiers(F, res)
+    r4b_check_identifier(F, res)
     r5_recognizer_pairing(F, res)
     r6_no_match(F, res)
     r7_delegate(F, res)
